@@ -26,11 +26,36 @@ GOENV = dict(os.environ, GOFLAGS="-mod=mod", GOPROXY="off", GOSUMDB="off", GOTOO
 NPROC = int(os.environ.get("VERIF_NPROC", os.cpu_count() or 4))
 
 # property -> engine, budgets (seconds of wall clock per worker), level
+TECH = "deterministic simulation with fault injection: "
 PROPS = {
-    "C01": dict(engine="wire", quick=40, thorough=600, level="exploration"),
-    "C02": dict(engine="wire", quick=40, thorough=600, level="exploration"),
-    "C03": dict(engine="wire", quick=40, thorough=600, level="exploration"),
-    "C06": dict(engine="wire", quick=40, thorough=600, level="exploration"),
+    "C01": dict(engine="wire", quick=40, thorough=600, level="exploration", design="DESIGN.md section 4, C01",
+                text="Seeded search over write-size sequences, read sizes, chunkings (1 byte .. whole bursts, handshake+payload coalesced), latencies, IAT modes, table bias, bridge seeds and task interleavings of a real obfs4 client and server; every Read is compared with a position-coded stream model and completeness is demanded after 10 quiet virtual minutes. Sampling, not proof.",
+                note="Trusted: the simulator (sim/), go1.26.8 testing/synctest, the stream model. Real code: all of transports/obfs4 and what it imports. TCP, clock, entropy and goroutine scheduling at conn operations are simulated.",
+                technique=TECH + "seeded schedule/chunking search, stream-prefix model oracle, quiescence liveness check"),
+    "C02": dict(engine="wire", quick=40, thorough=600, level="exploration", design="DESIGN.md section 4, C02",
+                text="Seeded search over six scenario kinds (genuine control, client with wrong node ID / public key, impostor server forging mark+MAC from the public bridge line with AUTH from another key / random AUTH / low-order Y', on-path single-bit and truncation tampering of every response field, 2-6 concurrent clients on one factory) under all chunkings; oracle: Dial completes iff the peer holds the identity key and the response is intact, fails by the 60 s virtual deadline otherwise, ephemeral representatives pairwise distinct.",
+                note="Trusted: simulator, the independent reference implementation (sim/ref/obfs4ref) used as impostor and for locating response fields. Real code: obfs4 client and server.",
+                technique=TECH + "second-party deviation (impostor / on-path tamper) under seeded chunking and scheduling"),
+    "C03": dict(engine="wire", quick=40, thorough=600, level="exploration", design="DESIGN.md section 4, C03",
+                text="1-4 sequential or concurrent probers per run (silent, random lengths incl. 8191/8192/8193, truncated/extended/bit-flipped/short-padded valid handshakes, hours outside the window, wrong key / node ID, low-order X', byte-identical replay, floods of 1.25 MiB, early disconnects, pauses beyond 30 s) against one real server factory (and a second factory started from the same identity); oracle on the server-side conn: zero bytes written, close exactly at accept+D with 30 s <= D < 90 s and D identical for all probes of the bridge, input drained until then, prompt return on early disconnect; a conforming control client is answered.",
+                note="Trusted: simulator, reference implementation (crafts the probes). D is never recomputed from the seed. Real code: obfs4 server.",
+                technique=TECH + "adversarial probers on a virtual clock, wire-level oracle on the server-side conn"),
+    "C04": dict(engine="wire", quick=40, thorough=600, level="exploration", design="DESIGN.md section 4, C04",
+                text="Histories of up to 10 submissions (fresh with hour offset -3..+3, byte-identical replays, 2-4 simultaneous copies) with virtual-time gaps of 0 .. 3 h 10 min and starts within +-2 s of an hour boundary against one real server factory; reference clients verify the reply themselves; model: each blob accepted at most once, fresh blobs accepted iff stamped hour within +-1 of the server hour, reply verifies only under the client's hour, rejected submissions get silence.",
+                note="Trusted: simulator, reference implementation, acceptance model. Monotone clock only; the capacity bound is exercised in C11.",
+                technique=TECH + "history generation against an executable acceptance model on a virtual clock"),
+    "C05": dict(engine="wire", quick=40, thorough=600, level="exploration", design="DESIGN.md section 4, C05",
+                text="A reference peer (which knows frame boundaries) sends 3-8 frames of all size classes followed by three full frames; one attacker edit per run (bit flip in length / tag / body, delete, duplicate, swap, replay of an earlier frame, junk insertion, truncation then EOF or silence) under all chunkings against a real client or server; oracle: delivered bytes are a prefix of the plaintext that never extends past the damaged frame, and Read reports an error once the damage plus two maximum frames were delivered.",
+                note="Trusted: simulator, reference implementation. Real code: obfs4 framing / packet / Read path in both roles.",
+                technique=TECH + "on-path stream tampering faults with prefix-model oracle"),
+    "C06": dict(engine="wire", quick=40, thorough=600, level="exploration", design="DESIGN.md section 4, C06",
+                text="Real client against the independent reference server and reference client against the real server, both bridge-line forms, all IAT modes, padding lengths incl. extremes, hour offsets -1/0/+1, reference-chosen packetisation (split payloads, padding, padding-only and unknown-type packets), all chunkings; the reference must accept and decode everything the real side emits (layout, ranges, zero padding, unpadded seed frame equal to the bridge seed) and the real side must deliver everything the reference sends.",
+                note="Residual risk: a misunderstanding shared by the reference (written from the property text and protocol document) and the code. No known-answer vectors exist offline.",
+                technique=TECH + "two-party interop against an independent reference implementation under seeded segmentation"),
+    "C09": dict(engine="wire", quick=40, thorough=600, level="exploration", design="DESIGN.md section 4, C09",
+                text="Real client and server with a wire monitor under every underlying Write; random and directed bridge seeds (tables {0}, {1448}, {4}, {34}, {1428}, {1275,0}), directed application write sizes putting the burst tail at target-23..target+2, all IAT modes and both bias settings; oracle from an independently derived table: burst length obeys the padding rule for some target, IAT writes <= 1448, paranoid writes are non-zero table values (1448 accepted when the table contains 0), client bursts checked against the server's table once it has delivered server payload; every Write terminates, no panic.",
+                note="Trusted: simulator, reference DRBG/table derivation. The all-pairs arithmetic of the quantifier is sampled through the API, not enumerated.",
+                technique=TECH + "wire-size monitor against an independently derived seeded table"),
 }
 
 ENGINES = {
@@ -325,6 +350,52 @@ COMPONENTS = {
 }
 
 
+NOT_APPLICABLE = {
+    "C07": "Elligator 2 encode/decode is a pure function of 32-byte inputs: no schedule, clock, I/O, fault or second party for a simulator to control (DESIGN.md section 1).",
+    "C08": "ntor client/server computations and the KDF are pure functions of keys and node ID; their system-level consequences are exercised inside C02/C03, the for-all-keys algebraic claim is not a simulation target.",
+    "C12": "Seeded distribution tables, the DRBG and the range helpers are pure functions of seed/bounds/entropy; the only schedule-dependent aspect (Reset racing Sample) is folded into C09.",
+    "C20": "Log scrubbing is a pure function of an error value or address string; nothing in it depends on scheduling, time, I/O or faults.",
+}
+ENGINE_KIND = {
+    "wire": "B1: unmodified repository packages inside a testing/synctest bubble on the simulated network/clock/entropy; park-release scheduler driven by a seeded choice tape",
+}
+
+
+def gen_manifest():
+    path = os.path.join(VERIF, "MANIFEST.json")
+    m = json.load(open(path))
+    m["checks"] = []
+    for pid in sorted(PROPS):
+        c = PROPS[pid]
+        m["checks"].append({
+            "property_id": pid,
+            "quick_cmd": "python3 verif.py check %s --tier quick" % pid,
+            "thorough_cmd": "python3 verif.py check %s --tier thorough" % pid,
+            "evidence_file": "evidence/%s.json" % pid,
+            "replay_cmd_template": "python3 verif.py replay {path}",
+            "engine": c["engine"],
+            "level_claimed": {"category": c["level"], "text": c["text"], "design_ref": c["design"]},
+            "level_note": c["note"],
+            "technique": c["technique"],
+        })
+    m["engines"] = [{"name": e, "path": "harness/" + ENGINES[e]["src"],
+                     "serves_properties": sorted(p for p in PROPS if PROPS[p]["engine"] == e),
+                     "kind_free_text": ENGINE_KIND.get(e, "")} for e in sorted(ENGINES)]
+    na = []
+    for i in range(1, 21):
+        pid = "C%02d" % i
+        if pid in PROPS:
+            continue
+        if pid in NOT_APPLICABLE:
+            na.append({"property_id": pid, "reason": NOT_APPLICABLE[pid]})
+        else:
+            na.append({"property_id": pid, "reason": "applicable, but its check is not built yet in this session (planned: DESIGN.md section 4); not claimed until the check is sound on the unchanged tree"})
+    m["not_applicable"] = na
+    json.dump(m, open(path, "w"), indent=1)
+    print("MANIFEST.json: %d checks, %d not claimed" % (len(m["checks"]), len(na)))
+    return 0
+
+
 def main():
     ap = argparse.ArgumentParser()
     sub = ap.add_subparsers(dest="cmd", required=True)
@@ -337,7 +408,10 @@ def main():
     st.add_argument("props", nargs="*")
     st.add_argument("--seeds", type=int, default=40)
     sub.add_parser("setup")
+    sub.add_parser("manifest")
     a = ap.parse_args()
+    if a.cmd == "manifest":
+        sys.exit(gen_manifest())
     if a.cmd == "check":
         seed = int(os.environ.get("VERIF_SEED", "1"))
         sys.exit(check(a.prop, a.tier, seed))
